@@ -15,6 +15,7 @@ EXPLANATION = (
     "iteration in clear / shard_stats."
     ' (R09.9) lookups and usable-track scans are answered by the shard workers, one command and one answer per worker; (R09.10) who-may-change-membership: only add_track / add insert into, fetch_tracks removes from and clear empties a shard map (a worker arm that takes a track out of its shard and puts it back is reported); R09.4 also requires that fetch_tracks examines every requested id (the removal loop ranges over the whole `tracks` parameter through no bounding adaptor).'
     ' (R09.11) no Merge / Lookup / Distances arm can end a shard worker; R09.8 also requires that clear / shard_stats visit every shard (no short-circuiting adaptor); (R09.12) the restore-on-error clause of C11 for Track::merge / add_observation (a failed merge leaves the destination as it was).')
+EXPLANATION += " (R09.13) every command with a reply sender carries the sending end of a channel created by that call; (R09.14) the class list of Commands::Merge is a plain copy of the caller's list, empty only when None was passed."
 NOT_DECIDED = ["refinement against a sequential map model for arbitrary user callbacks",
                "behaviour when a worker thread panics"]
 ASSUMPTIONS = ["std HashMap / crossbeam channels behave as documented", "panics out of scope",
@@ -39,6 +40,12 @@ def run(ctx):
     r10(ctx)
     ctx.rule('R09.11', 'the shard workers keep serving: no Merge / Lookup / Distances arm ends the worker thread')
     ctx.floor('R09.11', S.rule_worker_keeps_serving(ctx, 'R09.11'), 3)
+    ctx.rule('R09.13', 'every command with a reply sender carries the sending end of a channel created by that call (no reply '
+                       'channel shared between calls: concurrent lookups would take each other\'s replies)')
+    ctx.evaluated('R09.13', S.rule_reply_channels_per_call(ctx, 'R09.13'), 5)
+    ctx.rule('R09.14', 'the class list sent with Commands::Merge is a plain copy of the caller\'s list; empty (= all classes) only '
+                       'when the caller passed None')
+    ctx.evaluated('R09.14', S.rule_merge_classes_verbatim(ctx, 'R09.14'), 2)
     # a failed merge leaves the destination as it was (clause of C11, run here because C09 states "reports failure ...
     # rather than success" and "changes only the destination")
     from props import C11
